@@ -8,6 +8,7 @@ use std::sync::{Arc, Mutex};
 
 mod fifo;
 mod revoke_dup;
+mod revoke_pairs;
 mod dead_target;
 mod runner;
 mod once;
@@ -22,6 +23,7 @@ fn main()
     {
         "fifo" => fifo::run(&args[1..]),
         "revoke_dup" => revoke_dup::run(&args[1..]),
+        "revoke_pairs" => revoke_pairs::run(&args[1..]),
         "dead_target" => dead_target::run(&args[1..]),
         "runner" => runner::run(&args[1..]),
         "once" => once::run(&args[1..]),
